@@ -1,4 +1,5 @@
 import Autobean.Model.Comments
+import Autobean.Model.AutoClaim
 import Driver.Util
 /-
 Driver for the comment-attribution model (C04/C14).  Stateless lock-step: every line carries the pre store.
@@ -16,6 +17,25 @@ Driver for the comment-attribution model (C04/C14).  Stateless lock-step: every 
   M uninter <store> <items> <set>                       unclaim_interleaving_comments
 
 Output: `ok <id:claimed,…> ret=<ids|-> [slot=<id|->] [items=<items>]` or `err <tag>`.
+
+  M walk <store> <tree>                                 root.auto_claim_comments()  (Model/AutoClaim.lean)
+
+  tree    = an s-expression without blanks, ',' between the elements of a list:
+     node   = (S,<node id>,<leading comment|->,<trailing comment|->,field,…)   block-commentable model
+            | (B,<0|1>,field,…)                                               other model; 1 = File (first/last = store ends)
+     field  = (P)                      absent optional field            (fields in document order)
+            | (P,<first>,<last>)       token / model without block comments
+            | (C,node)                 present field that is a model taking part in attribution
+            | (R,<rep id>,<placeholder>,<0|1 with comments>,entry,…)          repeated field, entries in order
+     entry  = node | c<comment id>     (comment entries only in a field with comments)
+  Output: `ok <id:claimed,…> L=<node:comment;…|-> T=<node:comment;…|-> R=<rep:e.e.e;…|-> F=<node:first:last;…|->
+           calls=<L<start>|T<start>|I<ph>:<mfirst>:<mlast>,…|-> again=<same|diff|err:tag> hyp=<0|1|->`
+     L/T  = filled leading/trailing slots, by node id;  R = entries of every repeated field in tree order, `n` = a model,
+     `c<id>` = a comment;  F = first_token/last_token of every block-commentable model afterwards, in tree order;
+     calls = the primitive calls in the order issued (claim_leading from <start>, claim_trailing from <start>,
+     claim_interleaving_comments of the field with placeholder <ph> inside model.first_token..model.last_token);
+     again = what a second walk on the result does (`same` = nothing observable changes);
+     hyp  = `fileLayoutOk` (the hypothesis of `walk_all_claimed_partial`) for a File root, `-` otherwise.
 -/
 open Autobean.Comments
 namespace Driver
@@ -53,8 +73,152 @@ def mkDoc (s : Store) (slot : Option Nat) (leading : Bool) : Doc :=
   let b := match slot with | some c => [(0, c)] | none => []
   { store := s, leading := if leading then b else [], trailing := if leading then [] else b, reps := [] }
 
+/-! ### `M walk` -/
+
+def sxTokens (s : String) : List String :=
+  let (acc, cur) := s.toList.foldl (fun (st : List String × String) c =>
+    let (acc, cur) := st
+    if c = '(' || c = ')' then ((if cur.isEmpty then acc else cur :: acc) |> (toString c :: ·), "")
+    else if c = ',' then ((if cur.isEmpty then acc else cur :: acc), "")
+    else (acc, cur.push c)) ([], "")
+  ((if cur.isEmpty then acc else cur :: acc)).reverse
+
+structure WalkInit where
+  leading : List (Nat × Nat) := []
+  trailing : List (Nat × Nat) := []
+  reps : List (Nat × List Item) := []
+
+mutual
+  partial def sxNode (ts : List String) (w : WalkInit) : Option (CNode × List String × WalkInit) :=
+    match ts with
+    | "(" :: "S" :: id :: le :: tr :: rest =>
+      let n := id.toNat!
+      let w := match decOptNat le with | some c => { w with leading := (n, c) :: w.leading } | none => w
+      let w := match decOptNat tr with | some c => { w with trailing := (n, c) :: w.trailing } | none => w
+      match sxFields rest w with
+      | some (fs, rest', w') => some (.surround n (CFields.ofList fs), rest', w')
+      | none => none
+    | "(" :: "B" :: ws :: rest =>
+      match sxFields rest w with
+      | some (fs, rest', w') => some (.bare (ws == "1") (CFields.ofList fs), rest', w')
+      | none => none
+    | _ => none
+  /-- fields up to and including the closing parenthesis of the enclosing node -/
+  partial def sxFields (ts : List String) (w : WalkInit) : Option (List CField × List String × WalkInit) :=
+    match ts with
+    | ")" :: rest => some ([], rest, w)
+    | "(" :: "P" :: ")" :: rest =>
+      match sxFields rest w with
+      | some (fs, r, w') => some (.plain none :: fs, r, w')
+      | none => none
+    | "(" :: "P" :: f :: l :: ")" :: rest =>
+      match sxFields rest w with
+      | some (fs, r, w') => some (.plain (some (f.toNat!, l.toNat!)) :: fs, r, w')
+      | none => none
+    | "(" :: "C" :: rest =>
+      match sxNode rest w with
+      | some (n, ")" :: rest', w') =>
+        (match sxFields rest' w' with
+         | some (fs, r, w'') => some (.child n :: fs, r, w'')
+         | none => none)
+      | _ => none
+    | "(" :: "R" :: r :: ph :: wc :: rest =>
+      match sxEntries rest w with
+      | some (ns, its, rest', w') =>
+        let w' := { w' with reps := w'.reps ++ [(r.toNat!, its)] }
+        (match sxFields rest' w' with
+         | some (fs, r', w'') => some (.rep r.toNat! ph.toNat! (wc == "1") (CNodes.ofList ns) :: fs, r', w'')
+         | none => none)
+      | none => none
+    | _ => none
+  /-- entries up to and including the closing parenthesis of the field -/
+  partial def sxEntries (ts : List String) (w : WalkInit) : Option (List CNode × List Item × List String × WalkInit) :=
+    match ts with
+    | ")" :: rest => some ([], [], rest, w)
+    | "(" :: _ =>
+      match sxNode ts w with
+      | some (n, rest, w') =>
+        (match sxEntries rest w' with
+         | some (ns, its, r, w'') => some (n :: ns, ⟨0, 0, false⟩ :: its, r, w'')
+         | none => none)
+      | none => none
+    | t :: rest =>
+      if t.startsWith "c" then
+        let c := (t.drop 1).toString.toNat!
+        match sxEntries rest w with
+        | some (ns, its, r, w') => some (ns, ⟨c, c, true⟩ :: its, r, w')
+        | none => none
+      else none
+    | [] => none
+end
+
+mutual
+  partial def surroundsOf : CNode → List CNode
+    | .surround id fs => .surround id fs :: (fs.toList.flatMap surroundsOfField)
+    | .bare _ fs => fs.toList.flatMap surroundsOfField
+  partial def surroundsOfField : CField → List CNode
+    | .plain _ => []
+    | .child n => surroundsOf n
+    | .rep _ _ _ items => items.toList.flatMap surroundsOf
+end
+
+mutual
+  partial def repsOf : CNode → List Nat
+    | .surround _ fs => fs.toList.flatMap repsOfField
+    | .bare _ fs => fs.toList.flatMap repsOfField
+  partial def repsOfField : CField → List Nat
+    | .plain _ => []
+    | .child n => repsOf n
+    | .rep r _ _ items => r :: items.toList.flatMap repsOf
+end
+
+def encPairs (l : List (Nat × Nat)) : String :=
+  if l.isEmpty then "-" else ";".intercalate (l.map fun p => s!"{p.1}:{p.2}")
+
+def encKinds (l : List (Option Nat)) : String :=
+  ".".intercalate (l.map fun k => match k with | some c => s!"c{c}" | none => "n")
+
+def encCall : Call → String
+  | .claimLeading _ st _ => s!"L{st}"
+  | .claimTrailing _ st _ => s!"T{st}"
+  | .claimInter _ ph mf ml _ => s!"I{ph}:{mf}:{ml}"
+  | .unclaimLeading n => s!"UL{n}"
+  | .unclaimTrailing n => s!"UT{n}"
+  | .unclaimInter r _ => s!"UI{r}"
+
+def sortPairs (l : List (Nat × Nat)) : List (Nat × Nat) :=
+  (l.toArray.qsort (fun a b => a.1 < b.1)).toList
+
+def walkCmd (st tree : String) : String :=
+  match decStore st, sxNode (sxTokens tree) {} with
+  | some s, some (root, [], w) =>
+    let d : Doc := { store := s, leading := w.leading, trailing := w.trailing, reps := w.reps }
+    match walkNode d root with
+    | .error e => "err " ++ e
+    | .ok (d', calls) =>
+      let ns := surroundsOf root
+      let slot (l : List (Nat × Nat)) := sortPairs (ns.filterMap fun n =>
+        match n with
+        | .surround id _ => (lookup id l).map fun c => (id, c)
+        | _ => none)
+      let reps := ";".intercalate ((repsOf root).map fun r => s!"{r}:{encKinds (itemKinds (repItems r d'.reps))}")
+      let fl := ";".intercalate (ns.map fun n =>
+        match n with
+        | .surround id _ => s!"{id}:{encOptNat (firstTok d' n)}:{encOptNat (lastTok d' n)}"
+        | _ => "")
+      let again := match walkNode d' root with
+        | .error e => "err:" ++ e
+        | .ok (d'', _) => if d''.obs == d'.obs then "same" else "diff"
+      let hyp := match root with
+        | .bare true (.cons (.rep r ph true items) .nil) => if fileLayoutOk d r ph items then "1" else "0"
+        | _ => "-"
+      let cs := if calls.isEmpty then "-" else ",".intercalate (calls.map encCall)
+      s!"ok {cmEncStore d'.store} L={encPairs (slot d'.leading)} T={encPairs (slot d'.trailing)} R={if reps.isEmpty then "-" else reps} F={if fl.isEmpty then "-" else fl} calls={cs} again={again} hyp={hyp}"
+  | _, _ => "!bad-arg"
+
 def commentsStep (args : List String) : String :=
   match args with
+  | ["walk", st, tree] => walkCmd st tree
   | ["shift", st, first, last, dir] =>
     match decStore st with
     | none => "!bad-store"
